@@ -109,6 +109,24 @@ func makeRef(p pageURLParts, form, tok, ext string) (ref, want string) {
 	case "mailto":
 		v := "mailto:" + tok + "@example.com"
 		return v, v
+	case "mailto-upper":
+		v := "MAILTO:" + tok + "@Example.com"
+		return v, v
+	case "javascript-mixed":
+		v := "JavaScript:open('" + tok + "')#a b"
+		return v, v
+	case "data-mixed":
+		v := "Data:image/png;base64," + strings.Repeat("QUJD", 40) + tok
+		return v, v
+	case "file-abs":
+		v := "file:///C:/My Docs/" + name
+		return v, v
+	case "file-dots":
+		v := "file:///srv/a/../" + name
+		return v, v
+	case "tel":
+		v := "tel:+1-555-" + tok
+		return v, v
 	case "bad-host":
 		v := "http://[::1/" + name
 		return v, v
@@ -145,11 +163,12 @@ func genC06(t *rapid.T) *Case {
 		prefix := "i"
 		switch kind {
 		case "a":
-			forms = append(append([]string{}, rel...), "abs-same", "abs-other", "fragment", "data-text", "javascript", "mailto", "bad-host", "bad-escape", "bad-ctl")
+			forms = append(append([]string{}, rel...), "abs-same", "abs-other", "fragment", "data-text", "javascript", "mailto", "bad-host", "bad-escape", "bad-ctl",
+				"mailto-upper", "javascript-mixed", "file-abs", "file-dots", "tel")
 			forms = append(forms, rel...) // relative forms twice as likely
 			ext, prefix = ".html", "l"
 		case "img":
-			forms = append(append([]string{}, rel...), "abs-same", "abs-other", "data", "bad-host", "bad-escape", "fragment")
+			forms = append(append([]string{}, rel...), "abs-same", "abs-other", "data", "bad-host", "bad-escape", "fragment", "data-mixed", "file-abs")
 			forms = append(forms, rel...)
 		case "srcset":
 			forms = append(append([]string{}, rel...), "abs-same", "abs-other")
@@ -299,8 +318,8 @@ func checkC06(c *Case) (*Violation, caseInfo) {
 			for _, a := range n.Attr {
 				switch a.Key {
 				case "href":
-					if n.Data == "a" {
-						checkVal(a.Val, "a@"+ctx)
+					if n.Data == "a" || n.Data == "area" {
+						checkVal(a.Val, n.Data+"@"+ctx)
 					}
 				case "src":
 					switch n.Data {
